@@ -132,7 +132,7 @@ class Models:
                      "type", "reversed", "sorted", "tuple", "list", "str", "format", "iter",
                      "next", "map", "range", "zip", "enumerate", "all", "any", "bool", "repr",
                      "float", "issubclass", "getattr", "id", "callable", "builtin_sum", "dict",
-                     "set", "frozenset", "object", "filter"}
+                     "set", "frozenset", "object", "filter", "hasattr"}
 
     def global_name(self, module, name, node):
         r = self.prog.resolve_global(module, name)
@@ -608,6 +608,8 @@ class Models:
             if obj.name in self.prog.modules:
                 return self.global_name(self.prog.modules[obj.name], attr, node)
             return FuncV(f"{short}.{attr}")
+        if isinstance(obj, FuncV) and obj.name == "itertools.chain" and attr == "from_iterable":
+            return FuncV("itertools.chain.from_iterable")
         if isinstance(obj, TypeV):
             if obj.name == "ROUNDING":
                 return EnumV("ROUNDING", attr)
@@ -618,6 +620,8 @@ class Models:
             if obj.ci is not None:
                 fi = self.prog.lookup(obj.ci, attr)
                 if fi is not None:
+                    if fi.kind == "classmethod":
+                        return PyFuncV(fi, obj)
                     return PyFuncV(fi) if fi.kind != "property" else OpaqueV("property")
                 e = self.prog.lookup_attr(obj.ci, attr)
                 if e is not None:
@@ -693,7 +697,13 @@ class Models:
                     return NONE
                 if attr in ("keys", "values", "items"):
                     return ListV([TupleV([k, v]) if attr == "items" else (k if attr == "keys" else v)
-                                  for k, v in d.items])
+                                  for k, v in self.dict_view(d, n)])
+                if attr == "copy":
+                    c_ = DictV(list(d.items), tag=d.tag)
+                    for extra in ("default_factory",):
+                        if hasattr(d, extra):
+                            setattr(c_, extra, getattr(d, extra))
+                    return c_
                 if attr == "get":
                     try:
                         return self.dict_get(d, args[0], n)
@@ -705,6 +715,23 @@ class Models:
                     except AbsRaise:
                         d.items.append((args[0], args[1] if len(args) > 1 else NONE))
                         return d.items[-1][1]
+                if attr == "pop" and args and getattr(d, "rate_table", None) is None:
+                    v_ = self.dict_remove(d, args[0], n)
+                    if v_ is not None:
+                        return v_
+                    if len(args) > 1:
+                        return args[1]
+                    self.I.raise_("KeyError", n)
+                if attr == "clear" and getattr(d, "rate_table", None) is None:
+                    d.items[:] = []
+                    return NONE
+                if attr == "popitem" and getattr(d, "rate_table", None) is None:
+                    view = self.dict_view(d, n)
+                    if not view:
+                        self.I.raise_("KeyError", n)
+                    k_, v_ = view[-1]
+                    self.dict_remove(d, k_, n)
+                    return TupleV([k_, v_])
                 if attr in ("pop", "clear", "popitem"):
                     return OpaqueV(f"dict.{attr}")
                 self.I.unsupported(n, f"dict method {attr}")
@@ -866,6 +893,8 @@ class Models:
             return self.I.call_function(fi, [obj], {}, node)
         if fi.kind == "static":
             return PyFuncV(fi)
+        if fi.kind == "classmethod" and isinstance(obj, (ObjV, QtyV, UnitV)):
+            return PyFuncV(fi, self.type_of(obj, node))
         return PyFuncV(fi, obj)
 
     def super_attr(self, sv: SuperV, attr, node):
@@ -1032,6 +1061,11 @@ class Models:
         I = self.I
         if isinstance(key, SliceV):
             return self.get_slice(obj, key.lo, key.hi, node)
+        if isinstance(obj, StrV) and obj.const is not None and isinstance(key, Num) and self.st.norm(key.rf).is_const():
+            try:
+                return StrV(obj.const[int(self.st.norm(key.rf).const_value())])
+            except IndexError:
+                I.raise_("IndexError", node)
         if isinstance(obj, TupleV) or (isinstance(obj, ListV) and obj.items is not None):
             items = obj.items
             if isinstance(key, Num) and self.st.norm(key.rf).is_const():
@@ -1065,15 +1099,45 @@ class Models:
             if fi is not None:
                 return I.call_function(fi, [obj, key], {}, node)
         if isinstance(obj, DictV):
-            return self.dict_get(obj, key, node)
+            return self.dict_get(obj, key, node, subscript=True)
         I.unsupported(node, f"subscript of {obj!r}")
 
-    def dict_get(self, d, key, node):
+    def dict_view(self, d, node):
+        """Distinct keys in insertion order with their latest values."""
+        out = []
+        for k, v in d.items:
+            for i, (k2, _) in enumerate(out):
+                if self.keys_equal(k2, k, node):
+                    out[i] = (k2, v)
+                    break
+            else:
+                out.append((k, v))
+        return out
+
+    def dict_remove(self, d, key, node):
+        """Remove `key`; -> its value, or None when absent."""
+        found = None
+        kept = []
+        for k, v in d.items:
+            if self.keys_equal(k, key, node):
+                found = v
+            else:
+                kept.append((k, v))
+        if found is not None:
+            d.items[:] = kept
+        return found
+
+    def dict_get(self, d, key, node, subscript=False):
         if getattr(d, "rate_table", None) is not None:
             return self.rate_table_get(d, key, node)
         for k, v in reversed(d.items):
             if self.keys_equal(k, key, node):
                 return v
+        fac = getattr(d, "default_factory", None) if subscript else None
+        if fac is not None and not isinstance(fac, NoneV):
+            v = self.call(fac, [], {}, node)
+            d.items.append((key, v))
+            return v
         self.I.raise_("KeyError", node)
 
     def keys_equal(self, a, b, node) -> bool:
@@ -1122,7 +1186,7 @@ class Models:
         return RateV(base, cur, Num(RF.atom(("um", "tbl:" + uid)), "dec"), Num(RF.atom(("ta", "tbl:" + uid)), "dec"),
                      name="tbl:" + uid)
 
-    def get_slice(self, obj, lo, hi, node):
+    def get_slice(self, obj, lo, hi, node, step=None):
         def idx(x):
             if x is None or isinstance(x, NoneV):
                 return None
@@ -1130,9 +1194,13 @@ class Models:
                 return int(self.st.norm(x.rf).const_value())
             self.I.unsupported(node, "symbolic slice bound")
         if isinstance(obj, TupleV):
-            return TupleV(obj.items[idx(lo):idx(hi)])
+            return TupleV(obj.items[idx(lo):idx(hi):idx(step)])
         if isinstance(obj, ListV) and obj.items is not None:
-            return ListV(obj.items[idx(lo):idx(hi)])
+            return ListV(obj.items[idx(lo):idx(hi):idx(step)])
+        if isinstance(obj, StrV) and obj.const is not None:
+            return StrV(obj.const[idx(lo):idx(hi):idx(step)])
+        if step is not None:
+            self.I.unsupported(node, "slice step")
         if isinstance(obj, ObjV) and obj.ci is not None:
             fi = self.prog.lookup(obj.ci, "__getitem__")
             if fi is not None:
@@ -1211,7 +1279,13 @@ class Models:
             u = UnitV(st.new_unit(tid))
             u.from_symbol = key
             return u
-        I.unsupported(node, f"lookup in {g.name} by {key!r}")
+        # any other process-global mapping (a memo): what was stored on this path is found again, anything else is
+        # a miss - Engine A follows the miss; that a hit equals recomputation is what the memo rules decide
+        for e in reversed(st.effects):
+            if e[0] == "setitem" and isinstance(e[1], GlobalMapV) and e[1].name == g.name and \
+                    self.keys_equal(e[2], key, node):
+                return e[3]
+        I.raise_("KeyError", node)
 
     def term_view(self, t, node, depth=0):
         """Abstract view (value, dimension vector) of an interpreted Term object."""
